@@ -15,7 +15,7 @@ TRUSTED = [
 ]
 RULE = ("seed-generated worlds: each of the 32 subsets of {Java, Bedrock, legacy 1.6, 1.4, beta 1.8} x how an unspoken variant fails (refused, garbage, empty stream); statuses with strings over ASCII, multi-byte, control characters, quotes, backslashes, section signs; "
         "optional members present / absent / null, sample of 0-3 players, description as text, chat component or absent, member order varied, unknown members, trailing pong packet; Bedrock 6-12 fields with and without trailing separator; u32 counts and i32 protocol numbers at the boundaries; "
-        "each world is queried with the auto query and with each specific query it speaks; mutations: framing bytes flipped, streams truncated; non-trivial = a response is expected; distinct by case bytes")
+        "each world is queried with the auto query and with each specific query it speaks; mutations: framing bytes flipped, streams truncated; the games-level functions with the port omitted against a Bedrock-only server and silence (destination ports of every connection);  non-trivial = a response is expected; distinct by case bytes")
 
 
 def enc_script(udp, tcp):
@@ -157,13 +157,50 @@ def gen_cases(tier, rng):
                     jsons2.add(t)
         cases.append({"id": "mc/mut/%d/%d" % (v, s), "hex": mc_case(v, port, udp2, tcp2, sorted(jsons2)),
                       "meta": {"stream": "malformed", "ok": False}})
+    cases += module_port_rows(tier, rng, seeds, outs, reqs)
     return cases
+
+
+MODULE_PORTS = {"minecraft": ({25565}, {19132}), "minecraftjava": ({25565}, set()), "minecraftbedrock": (set(), {19132}), "minecraftpocket": (set(), {19132}),
+                "minecraftlegacy16": ({25565}, set()), "minecraftlegacy14": ({25565}, set()), "minecraftlegacyb18": ({25565}, set())}
+
+
+def module_port_rows(tier, rng, seeds, outs, reqs):
+    """the games-level functions with the port omitted: every variant is asked on its own default port
+    (Java and legacy TCP 25565, Bedrock UDP 19132), against a server that speaks Bedrock only and against silence"""
+    import C14
+    pongs = []
+    for (s, v), o in zip(reqs, outs):
+        if v == 2 and o != "SKIP" and not o.startswith("BADCASE"):
+            udp, tcp, expected, js, tags = parse_spec(o)
+            if expected.startswith("Ok(") and udp and udp[0] is not None:
+                pongs.append(udp[0])
+    rows = []
+    for mod in MODULE_PORTS:
+        for i, evs in enumerate([[]] + [[p] for p in pongs[:(3 if tier == "quick" else 40)]]):
+            rows.append({"id": "modport/%s/%d" % (mod, i), "hex": C14.paths_case(mod, mod, None, None, evs),
+                         "meta": {"stream": "module-default-port", "module": mod, "pong": bool(evs), "ok": bool(evs) and mod in ("minecraft", "minecraftbedrock", "minecraftpocket")}})
+    return rows
 
 
 def oracle(case, impl, side):
     m = case["meta"]
     if impl is None:
         return ("no-output", "no output")
+    if m["stream"] == "module-default-port":
+        if "d=[" not in side:
+            return ("no-module-run", "the module %s was not run: %s" % (m["module"], side[:200]))
+        d = side.split("d=[", 1)[1].rsplit("];", 1)[0]
+        res, trace = split_result(d)
+        tcp = set(int(t[1:].split("c")[0].split(":")[0]) for t in (trace or "").split(";") if t[:1] == "T")
+        udp = set(int(t[1:].split(":")[0]) for t in (trace or "").split(";") if t[:1] == "U")
+        want = MODULE_PORTS[m["module"]]
+        if (tcp, udp) != want:
+            return ("default-port:" + m["module"], "games::minecraft %s with the port omitted: TCP connections to %s and UDP sockets to %s, the variants' default ports are TCP %s / UDP %s"
+                    % (m["module"], sorted(tcp), sorted(udp), sorted(want[0]), sorted(want[1])))
+        if m["ok"] and not (res or "").startswith("Ok("):
+            return ("default-port:" + m["module"], "games::minecraft %s with the port omitted against a Bedrock server on its default port: %s" % (m["module"], (res or "")[:200]))
+        return None
     res, trace = split_result(impl)
     if "PANIC" in impl or impl in ("ABORT", "HANG"):
         return ("panic:" + m["stream"], "minecraft query does not return: %s %s" % (impl[:80], side[:200]))
